@@ -2,10 +2,12 @@
 use crate::address::RowAddress;
 
 /// Size of the universe that `row_ids()` iterates (membership tests use all 8 bits).
-#[cfg(not(verif_u3))]
+#[cfg(not(any(verif_u3, verif_u2)))]
 pub const UNIV: u64 = 8;
 #[cfg(verif_u3)]
 pub const UNIV: u64 = 3;
+#[cfg(verif_u2)]
+pub const UNIV: u64 = 2;
 
 #[derive(Clone, Copy, Debug, Default, PartialEq)]
 pub struct RowIdTreeMap {
@@ -36,13 +38,36 @@ impl RowIdTreeMap {
             Some(self.bits.count_ones() as u64)
         }
     }
-    pub fn row_ids(&self) -> Option<impl Iterator<Item = RowAddress> + '_> {
+    pub fn row_ids(&self) -> Option<RowIdsIter> {
         if self.has_full {
             None
         } else {
-            let bits = self.bits;
-            Some((0u64..UNIV).filter(move |i| (bits >> i) & 1 == 1).map(RowAddress::from))
+            Some(RowIdsIter { bits: self.bits, i: 0 })
         }
+    }
+}
+
+/// Ascending iteration over the model's members (a plain struct: iterator adapters are costly in CBMC).
+pub struct RowIdsIter {
+    bits: u8,
+    i: u64,
+}
+
+impl Iterator for RowIdsIter {
+    type Item = RowAddress;
+    fn next(&mut self) -> Option<RowAddress> {
+        // loop-free: lowest member >= i
+        if self.i >= UNIV {
+            return None;
+        }
+        let rest = (self.bits as u64 & ((1u64 << UNIV) - 1)) >> self.i;
+        if rest == 0 {
+            self.i = UNIV;
+            return None;
+        }
+        let v = self.i + rest.trailing_zeros() as u64;
+        self.i = v + 1;
+        Some(RowAddress::from(v))
     }
 }
 
